@@ -22,7 +22,8 @@ def gen(rng: random.Random, tier: str):
         ops = []; cur = L
         alts = [v1] + [sorted(rng.sample(universe, rng.randint(1, len(universe)))) for _ in range(2)]      # a small pool, so the same alternate vocabulary recurs within a history
         for _k in range(rng.randint(1, 6)):
-            kind = rng.choice(["ids", "numbers", "numbers", "getitem", "withvocab", "fields", "len", "ranks", "ranks", "copyids", "copynums", "copyboth", "copyidsvocab", "dropfield", "setfield"])
+            kind = rng.choice(["ids", "numbers", "numbers", "getitem", "withvocab", "fields", "len", "ranks", "ranks", "copyids", "copynums", "copyboth", "copyidsvocab", "dropfield", "setfield", "setfield", "convert", "convert"])
+            if kind == "convert": ops.append({"op": "convert", "via": rng.choice(["arrow", "frame", "pickle", "torch", "arrow-numbers"])}); continue
             if kind == "numbers":
                 alt = rng.choice([None] + alts)
                 ops.append({"op": "numbers", "vocab": alt, "missing": rng.choice(["error", "negative"])})
@@ -46,7 +47,11 @@ def gen(rng: random.Random, tier: str):
                 if kind == "copynums": cur = cur          # a length mismatch is rejected; the list keeps its length
                 else: cur = m
             elif kind == "dropfield": ops.append({"op": "dropfield", "name": "f1"})
-            elif kind == "setfield": ops.append({"op": "setfield", "name": rng.choice(["f1", "f2"]), "vals": [rng.randint(-5, 5) for _ in range(cur if rng.random() < 0.8 else rng.randint(0, 5))]})
+            elif kind == "setfield": 
+                nm = rng.choice(["f1", "f2", "f3"])          # f3 is a floating-point field; the model's value -5 stands for NaN there
+                vals = [rng.randint(-5, 5) for _ in range(cur if rng.random() < 0.8 else rng.randint(0, 5))]
+                if nm == "f3" and rng.random() < 0.35: vals = [-5] * len(vals)          # NaN for every item
+                ops.append({"op": "setfield", "name": nm, "vals": vals})
             else: ops.append({"op": kind})
         yield {"mode": mode, "ids": ids, "nums": nums, "vocab": v1, "f1": f1, "ops": ops, "ordered": rng.random() < 0.5}
 
@@ -67,6 +72,12 @@ def run(case: dict, lean: Lean) -> Outcome:
     elif mode == "nums+vocab": il = ItemList(item_nums=na, vocabulary=vocab(v1), **kw); init.update(nums=nums, vocab=v1)
     elif mode == "nums": il = ItemList(item_nums=na, **kw); init["nums"] = nums
     else: il = ItemList(item_ids=ida, item_nums=na, vocabulary=vocab(v1), **kw); init.update(ids=ids, nums=nums, vocab=v1)
+    def fields_of(l):
+        out = {}
+        for n_ in ("f1", "f2", "f3"):
+            a = l.field(n_)
+            if a is not None: out[n_] = [-5 if (n_ == "f3" and x != x) else int(x) for x in np.asarray(a)]
+        return out
     real = []; cur = il; mops = []
     for op in case["ops"]:
         k = op["op"]
@@ -85,7 +96,22 @@ def run(case: dict, lean: Lean) -> Outcome:
             elif k == "withvocab":
                 mops.append({"op": "withvocab", "vocab": op["vocab"]}); cur = ItemList(cur, vocabulary=vocab(op["vocab"])); real.append("ok")
             elif k == "fields":
-                mops.append({"op": "fields"}); real.append({n_: [int(x) for x in cur.field(n_)] for n_ in ("f1", "f2") if cur.field(n_) is not None})
+                mops.append({"op": "fields"}); real.append(fields_of(cur))
+            elif k == "convert":
+                # a representation round trip keeps every item's identifier and field values together and leaves the source as it was:
+                # observed as the identifiers and fields of the converted list, against the model's for the source
+                if len(cur) == 0: continue          # (the empty list's Arrow / frame form is the recorded C15 finding)
+                try: cur.ids()
+                except Exception: continue          # number-only lists without a vocabulary have no table form
+                import pickle, torch
+                via = op["via"]
+                if via == "arrow": conv = ItemList.from_arrow(cur.to_arrow())
+                elif via == "arrow-numbers": conv = ItemList.from_arrow(cur.to_arrow(numbers=cur.vocabulary is not None and all(int(i) in cur.vocabulary for i in cur.ids())))
+                elif via == "frame": conv = ItemList.from_df(cur.to_df(numbers=False))
+                elif via == "pickle": conv = pickle.loads(pickle.dumps(cur))
+                else: conv = ItemList(item_ids=cur.ids().copy(), ordered=cur.ordered, **{n_: cur.field(n_, "torch") for n_ in ("f1", "f2", "f3") if cur.field(n_) is not None})
+                mops += [{"op": "ids"}, {"op": "fields"}, {"op": "ids"}, {"op": "fields"}]
+                real += [{"ok": [int(x) for x in conv.ids()]}, fields_of(conv), {"ok": [int(x) for x in cur.ids()]}, fields_of(cur)]
             elif k == "ranks":
                 mops.append({"op": "ranks"}); r_ = cur.ranks(); real.append(None if r_ is None else [int(x) for x in r_])
             elif k in ("copyids", "copynums", "copyboth", "copyidsvocab"):
@@ -96,7 +122,10 @@ def run(case: dict, lean: Lean) -> Outcome:
                 if "vocab" in op: ckw["vocabulary"] = vocab(op["vocab"])
                 cur = ItemList(cur, **ckw); real.append("ok")
             elif k == "dropfield": mops.append(dict(op)); cur = ItemList(cur, **{op["name"]: False}); real.append("ok")
-            elif k == "setfield": mops.append(dict(op)); cur = ItemList(cur, **{op["name"]: np.array(op["vals"], dtype="i8")}); real.append("ok")
+            elif k == "setfield":
+                mops.append(dict(op))
+                arr = np.array([np.nan if v == -5 else float(v) for v in op["vals"]], dtype="f8") if op["name"] == "f3" else np.array(op["vals"], dtype="i8")
+                cur = ItemList(cur, **{op["name"]: arr}); real.append("ok")
             else: mops.append({"op": "len"}); real.append(len(cur))
         except Exception as e:          # an exception of the implementation is an outcome of the case
             real.append({"err": _errtag(e)})
@@ -108,6 +137,9 @@ def run(case: dict, lean: Lean) -> Outcome:
     classes = [mode]
     kinds = {o["op"] for o in case["ops"]}
     if "withvocab" in kinds: classes.append("re-vocabulary")
+    for o in case["ops"]:
+        if o["op"] == "convert": classes.append("convert via " + o["via"])
+        if o["op"] == "setfield" and o["name"] == "f3": classes.append("floating-point field" + (" that is NaN for every item" if o["vals"] and all(v == -5 for v in o["vals"]) else ""))
     for k_ in ("copyids", "copynums", "copyboth", "copyidsvocab", "dropfield", "setfield", "ranks"):
         if k_ in kinds: classes.append("op:" + k_)
     if ordered: classes.append("ordered list")
@@ -135,5 +167,5 @@ SPEC = CheckSpec(
               "LK.IL.C16_ItemList_cacheNums_ids", "LK.IL.C16_ItemList2_numbers_alt_spec", "LK.IL.C16_ItemList2_numbers_alt_error",
               "LK.IL.C16_ItemList2_withVocab_repaired_spec"],
     correspondence_ops=["c16.run"],
-    nontrivial_rule="distinct histories reaching ≥1 of: each construction mode, re-vocabulary, alternate vocabulary, error outcome, unknown identifier, as-is ≠ repaired",
+    nontrivial_rule="distinct histories reaching ≥1 of: each construction mode, re-vocabulary, alternate vocabulary, error outcome, unknown identifier, as-is ≠ repaired, representation round trips (Arrow with / without numbers, frame, pickle, torch), floating-point fields (all NaN)",
     budgets={"quick": 1500, "thorough": 30000}, gen=gen, run=run, shrink=shrink)
